@@ -100,3 +100,22 @@ Definition check_decode (te : tenv) (tbl : list edecl) (steps : list dstep) (o :
 
 Definition decode_mismatches (cs : list (N * tenv * list edecl * list dstep * dobs)) : list N :=
   flat_map (fun c => match c with (i, te, tbl, steps, o) => if check_decode te tbl steps o then [] else [i] end) cs.
+
+(* the error table goa computed (name, status, type) against the model's table computed
+   from the declarations and mappings of the three levels *)
+Definition kind_eqb (a b : ekind) : bool :=
+  match a, b with
+  | KDefault, KDefault => true
+  | KCustom x, KCustom y => String.eqb x y
+  | _, _ => false
+  end.
+
+Definition row_eqb (a b : string * nat * ekind) : bool :=
+  match a, b with (n1, s1, k1), (n2, s2, k2) => String.eqb n1 n2 && Nat.eqb s1 s2 && kind_eqb k1 k2 end.
+
+Definition rows_eqb (a b : list (string * nat * ekind)) : bool :=
+  Nat.eqb (List.length a) (List.length b) && forallb (fun r => existsb (row_eqb r) b) a.
+
+Definition table_mismatches (cs : list (N * levels * list (string * nat * ekind))) : list N :=
+  flat_map (fun c => match c with (i, lv, rows) =>
+     if rows_eqb (effective_error_table lv) rows then [] else [i] end) cs.
